@@ -22,7 +22,7 @@ def nontrivial(labels, stats, cfg, acts):
 def run_shard(ctx):
     bks = c03.backends(ctx)
     strat = qmgen.history(qmgen.configs(bks, pools=True, bounce=True), WEIGHTS, fail_heavy=True, bodies=True)
-    qmgen.drive_histories(ctx, OWN, strat, ctx.n(2000, 30000), nontrivial)
+    qmgen.drive_histories(ctx, OWN, strat, ctx.n(4000, 40000), nontrivial)
 
 
 def replay(case):
